@@ -326,8 +326,34 @@ def instantiate_structured(law, subs_log):
                 used = True
     if not used:
         return None
+    law1 = expand_indexed(law1)
     law1 = law1.doit()
     return law1
+
+
+def expand_indexed(e):
+    """IndexedSum / IndexedProduct over an index with concrete integer bounds are expanded HERE, term by term over the
+    inclusive range lower..upper of the Idx -- not by the repository's own `doit`, which is part of what is checked."""
+    def rec(x):
+        if not isinstance(x, sympy.Basic) or not x.args:
+            return x
+        name = type(x).__name__
+        if name in ("IndexedSum", "IndexedProduct") and len(x.args) == 2:
+            body, idx = x.args
+            lo, hi = getattr(idx, "lower", None), getattr(idx, "upper", None)
+            if lo is not None and hi is not None and lo.is_Integer and hi.is_Integer:
+                body = rec(body)
+                terms = [body.subs(idx, k) for k in range(int(lo), int(hi) + 1)]
+                return sympy.Add(*terms) if name == "IndexedSum" else sympy.Mul(*terms)
+            return x
+        new_args = [rec(a) for a in x.args]
+        if all(a is b for a, b in zip(new_args, x.args)):
+            return x
+        try:
+            return x.func(*new_args)
+        except Exception:  # pylint: disable=broad-except
+            return x
+    return rec(e)
 
 
 def build_simple(ex, bi: int, law_name: str, law) -> LemmaSpec:
@@ -724,6 +750,33 @@ def _generic_param(pname, ann):
         s = sympy.Symbol(f"g_{base}", real=True)
         return s, [s]
     raise NotHandled(f"parameter {pname} of a law function is a {ann}")
+
+
+def iter_inverse_pairs(module):
+    """(fname, f, gname, g, f's parameter names, g's parameter names, stem of f, stem of g, hints_f, hints_g) for every
+    ordered pair of law functions where g takes f's unknown as a parameter and returns one of f's parameters."""
+    import inspect  # pylint: disable=import-outside-toplevel
+    import typing  # pylint: disable=import-outside-toplevel
+    fns = law_functions(module)
+    if len(fns) < 2:
+        return
+    sigs = {k: inspect.signature(v) for k, v in fns}
+    for fname, f in fns:
+        for gname, g in fns:
+            if fname == gname:
+                continue
+            fs, gs = _stem(fname), _stem(gname)
+            fparams = list(sigs[fname].parameters)
+            gparams = list(sigs[gname].parameters)
+            fb = [p.rstrip("_") for p in fparams]
+            gb = [p.rstrip("_") for p in gparams]
+            if fs not in gb or gs not in fb or not set(gb) - {fs} <= set(fb):
+                continue
+            try:
+                hf, hg = typing.get_type_hints(f), typing.get_type_hints(g)
+            except Exception:  # pylint: disable=broad-except
+                continue
+            yield fname, f, gname, g, fparams, gparams, fs, gs, hf, hg
 
 
 def build_inverses(module, key_prefix: str) -> list:
